@@ -375,7 +375,7 @@ OPS = [
 OP_WEIGHT = {"+": 6, "-": 6, "*": 6, "/": 5, "quotient": 3, "remainder": 3, "modulo": 3, "=": 3, "<": 3, ">": 2,
              "<=": 2, ">=": 2, "abs": 3, "expt": 3, "gcd": 2, "lcm": 2, "exact-integer-sqrt": 2}
 
-SHAPES = ["call", "call", "const", "local", "litR", "litL", "branch", "tail", "apply", "alias", "loop", "let", "hof"]
+SHAPES = ["call", "call", "const", "local", "litR", "litL", "branch", "tail", "apply", "alias", "loop", "looplit", "looplit", "let", "hof"]
 
 
 def gen_args(r, op, n):
@@ -402,6 +402,12 @@ def gen_args(r, op, n):
         return a
     # arguments chosen to land exactly on a boundary
     t = r.choice([2 ** 62, 2 ** 63, -2 ** 63, 2 ** 64, 2 ** 31, 2 ** 32])
+    if op in "+-" and n == 2 and r.random() < 0.5:
+        # a boundary value and a small step that crosses it within a few iterations (either direction)
+        step = r.choice([1, 2, 3, 4, 7, 10, 100])
+        edge = r.choice([2 ** 63 - 1, -2 ** 63, 2 ** 63, -2 ** 63 - 1, 2 ** 62, -2 ** 62])
+        x = edge + r.randint(-6, 6)
+        return [x, step * r.choice([1, -1])]
     if op in "+-" and n == 2:
         x = gen_int(r, "near")
         return [x, t - x] if op == "+" else [x, x - t]
@@ -455,6 +461,20 @@ def build_expr(r, idx, op, args, expected):
         return shape, pre, "(let (%s) (%s %s))" % (binds, op, " ".join(vs)), expected
     if shape == "hof" and n == 2:
         return shape, pre, "(car (map %s (list %s) (list %s)))" % (op, A[0], A[1]), expected
+    if shape == "looplit" and op in ("+", "-", "*") and n == 2 and is_exact(args[0]) and is_exact(args[1]):
+        # the operation with a *literal* operand, iterated in a self tail loop (not inlinable, so the
+        # natively compiled specialisations for immediates run); the accumulator crosses the boundary mid-loop
+        k = r.randint(2, 12)
+        if op == "*" and (abs(Fraction(args[1]).numerator) > 2 ** 64 or Fraction(args[1]).denominator > 2 ** 32):
+            k = r.randint(2, 4)
+        f = "f%d" % idx
+        left = r.random() < 0.3
+        body = "(%s %s acc)" % (op, A[1]) if left else "(%s acc %s)" % (op, A[1])
+        pre.append("(define (%s i acc) (if (= i 0) acc (%s (- i 1) %s)))" % (f, f, body))
+        acc = args[0]
+        for _ in range(k):
+            acc = fold_arith(op, [args[1], acc] if left else [acc, args[1]])
+        return shape, pre, "(%s %d %s)" % (f, k, A[0]), acc
     if shape == "loop" and op in ("+", "-", "*") and n == 2 and is_exact(args[0]) and is_exact(args[1]):
         # iterate the operation k times in a tail loop: crosses representation boundaries inside the loop
         k = r.randint(2, 40)
@@ -483,7 +503,7 @@ def gen_case(r, idx):
         except (Skip, ZeroDivisionError, OverflowError):
             continue
         return {"op": op, "shape": shape, "pre": pre, "expr": expr, "expected": canon(exp2),
-                "classes": arg_classes(args)}
+                "classes": arg_classes(args), "split": bool(pre) and r.random() < 0.5}
     raise RuntimeError("generator could not produce a case")
 
 
@@ -567,53 +587,35 @@ def classify(expected, got):
 
 
 def run_items(items, env, per=150, tag="c10"):
-    """Evaluate every item (own top-level unit, shared engine per batch).  Returns a list of
-    outcomes aligned with items: the canonical value string, or ('fail', description)."""
-    out = [None] * len(items)
-    pending = list(range(len(items)))
-    rounds = 0
-    while pending and rounds < 12:
-        rounds += 1
-        cases = []
-        groups = {}
-        for b in range(0, len(pending), per):
-            idxs = pending[b:b + per]
-            cid = "b%d_%d" % (rounds, b)
-            groups[cid] = idxs
-            cases.append({"id": cid, "timeout_ms": 120000,
-                          "units": ["\n".join(items[k]["pre"]) + "\n" + items[k]["expr"] for k in idxs]})
-        results, meta = core.run_cases(cases, env=env, tag=tag)
-        nxt = []
-        for cid, idxs in groups.items():
-            res = results.get(cid)
-            units = res["units"] if res else []
-            poisoned = False
-            for pos, k in enumerate(idxs):
-                if poisoned or pos >= len(units):
-                    if res is not None and pos == len(units) and res["status"] != "ok":
-                        # the process died while evaluating this item
-                        out[k] = ("fail", "process %s" % res["status"])
-                        poisoned = True
-                        continue
-                    nxt.append(k)
-                    continue
-                u = units[pos]
-                if u.get("ok"):
-                    out[k] = u["vals"][-1] if u["vals"] else "void"
-                elif u.get("panics"):
-                    loc = u["panics"][0][0].rsplit(":", 1)[0]
-                    out[k] = ("fail", "panic at %s: %s" % (loc, u["panics"][0][1][:60]))
-                    poisoned = True   # do not trust the engine after a panic: rerun the rest
-                else:
-                    out[k] = ("fail", "error %s" % u.get("kind"))
-        pending = nxt
-        per = max(10, per // 2)
-    return out
+    """Evaluate every item on the real engine.  An item's definitions go either in the same top-level
+    unit as its call (the compiler may inline them) or, with item['split'], in an earlier unit of
+    their own (then the call is a real call of a separately compiled - natively compiled - function).
+    Returns outcomes aligned with items: the canonical value string, or ('fail', description)."""
+    units = []
+    for it in items:
+        if it.get("split") and it["pre"]:
+            units.append(["\n".join(it["pre"]), it["expr"]])
+        else:
+            units.append("\n".join(it["pre"]) + "\n" + it["expr"])
+    outs = core.run_units(units, env=env, per=per, tag=tag, timeout_ms=120000)
+    res = [None] * len(items)
+    for k, o in enumerate(outs):
+        if o is None:
+            continue
+        if "died" in o:
+            res[k] = ("fail", "process %s" % o["died"])
+        elif o.get("ok"):
+            res[k] = o["vals"][-1] if o["vals"] else "void"
+        elif o.get("panic"):
+            res[k] = ("fail", "panic at %s: %s" % (o["panic"][0].rsplit(":", 1)[0], o["panic"][1][:60]))
+        else:
+            res[k] = ("fail", "error %s" % o.get("kind"))
+    return res
 
 
 def main(tier):
     rep = core.Reporter("C10", tier)
-    total = 40000 if tier == "quick" else 2400000
+    total = 120000 if tier == "quick" else 2400000
     r = core.rng("C10")
     items = [gen_case(r, i) for i in range(total // len(CONFIGS))]
     rep.coverage["rule"] = (
